@@ -787,6 +787,8 @@ func c17Case(c *hmain.Ctx, masks []*maskGen, gaf, gav string, gign, gproc [][]st
 				dropCI(m)
 			}
 			c.W.Count("ci_rules_dropped_non_ascii")
+		} else {
+			c.W.Count("ci_rules_kept_ascii_data")
 		}
 	}
 	ms := make([]hx.Sx, len(masks))
